@@ -79,14 +79,19 @@ func (a *Activation) call(st *State, ins *ssa.Call, cc *ssa.CallCommon, pos toke
 		a.havocCall(st, "dynamic call in "+a.name, args, resT, setRes, true)
 		return
 	}
-	// 1. stdlib models
-	if res, ok := a.stdlibCall(st, callee, cc, args, resT, pos); ok {
-		setRes(res)
-		return
-	}
 	var spec *FuncSpec
 	if callee.Pkg != nil {
 		spec = g.eng.specs.funcs[funcKey(callee)]
+	}
+	// 1. stdlib models (an explicit trusted contract with ghost effects on a library
+	// function outside the module replaces the built-in model: the contract is then
+	// what records the call)
+	useModel := spec == nil || !spec.Trusted || len(spec.Ghost) == 0 || callee.Pkg == nil || strings.HasPrefix(callee.Pkg.Pkg.Path(), modPath)
+	if useModel {
+		if res, ok := a.stdlibCall(st, callee, cc, args, resT, pos); ok {
+			setRes(res)
+			return
+		}
 	}
 	// 2. contract
 	inlineAll := false
